@@ -185,8 +185,12 @@ def run_real(p):
     env = {"epg": epg, "np": np}
     sm = eval(p["init"], env)
     snaps = []
+    xmats = p.setdefault("_xmats", [])
     for o in p["ops"]:
-        sm = eval(o, env)(sm, inplace=True)
+        opobj = eval(o, env)
+        sm = opobj(sm, inplace=True)
+        if isinstance(opobj, epg.X):
+            xmats.append((o, np.array(opobj.mat).reshape(-1, 3)))
         st = np.array(sm.states); eq = np.array(sm.equilibrium)
         co = None if sm.coords is None else np.array(sm.coords)
         B = st.shape[:-2]
@@ -213,18 +217,27 @@ def real_term(stf, eqf, cof, b):
 def run_real_stream(ctx, n):
     terms, meta = [], []
     fams = {}
+    nx = [0]
     for i in range(n):
         p = gen_real(ctx.rng)
         fams[p["family"]] = fams.get(p["family"], 0) + 1
         try:
             snaps = run_real(p)
         except Exception as e:
+            p.pop("_xmats", None)
             ctx.report("implementation raised %s on a valid program: %s" % (type(e).__name__, str(e)[:200]), {"real_case": p},
                        found_input=True, signature={"raises": type(e).__name__, "family": p["family"]})
             continue
+        xm = p.pop("_xmats", [])
         ctx.count(("real", p["ops"], p["init"]), nontrivial=True)
         if i < 3:
             ctx.sample({"real_program": p})
+        for (o, m) in xm:
+            # side conditions of C08_exchange_keeps_symmetry on the operator's own matrices
+            ch = [core.clist([core.qi(complex(x)) for x in m[:, c]]) for c in range(3)]
+            terms.append("(xmat_sym_ok (Q2Qc (1 # 100000000000)) %s %s %s)" % tuple(ch))
+            meta.append((p, len(p["ops"]) - 1, o + " [mat: F- matrix = conj F+ matrix, Z matrix real]"))
+            nx[0] += 1
         for step, (o, stf, eqf, cof, consistent) in enumerate(snaps):
             if not consistent:
                 ctx.report("state count / shape of states, equilibrium, coords and sm.shape disagree after %s" % o,
@@ -246,7 +259,8 @@ def run_real_stream(ctx, n):
                        {"real_case": dict(p, ops=p["ops"][:step + 1])}, found_input=True,
                        signature={"op": o.split("(")[0], "family": p["family"], "why": "wfb_obs"})
     ctx.cov["real_operator_families"] = fams
-    ctx.cov["wfb_obs_evaluations"] = len(terms)
+    ctx.cov["wfb_obs_evaluations"] = len(terms) - nx[0]
+    ctx.cov["xmat_sym_evaluations"] = nx[0]
 
 
 def run(ctx):
@@ -324,6 +338,9 @@ def replay(ctx, rp):
         snaps = run_real(p)
         o, stf, eqf, cof, consistent = snaps[-1]
         terms = [real_term(stf, eqf, cof, b) for b in range(min(stf.shape[0], 2))]
+        for (_, m) in p.pop("_xmats", []):
+            terms.append("(xmat_sym_ok (Q2Qc (1 # 100000000000)) %s %s %s)"
+                         % tuple(core.clist([core.qi(complex(x)) for x in m[:, c]]) for c in range(3)))
         v, errs = ctx.run_bool_cases("replay", HEADER2, terms, chunk=12)
         ctx.cleanup_cases()
         bad = (not consistent) or any(x is False for x in v)
